@@ -12,7 +12,9 @@ CfgMid == {Cfg2("refresh", "basic"), Cfg2("both", "static"), Cfg2("none", "cfger
 \* thorough: every pairing that matters for confinement (distinct credentials on the two hosts)
 CfgThorough == {Cfg2(a, b) : a \in {"refresh", "both"}, b \in {"basic", "static", "none", "cfgerr", "refresh"}}
                  \cup {Cfg2("basic", "static"), Cfg2("basic", "basic"), Cfg2("static", "none")}
-CfgConc == {Cfg2("refresh", "basic"), Cfg2("both", "both"), Cfg2("static", "none")}
+CfgConc == {Cfg2("refresh", "basic"), Cfg2("both", "static")}
+CfgWide == {Cfg2("both", "basic"), Cfg2("refresh", "static")}
+CfgTime == {Cfg2("refresh", "static"), Cfg2("basic", "none")}
 
 Bearers == {BearerChal(r, sc) : r \in Realms, sc \in ScopeSets}
 Other == [scheme |-> "other", realm |-> "-", scope |-> {}]
